@@ -379,12 +379,14 @@ static void hnd_put_peer(coap_resource_t *r, coap_session_t *s, const coap_pdu_t
   size_t len = 0, off = 0, total = 0;
   const uint8_t *d = NULL;
   coap_block_b_t b;
-  (void)r; (void)s; (void)q;
+  (void)s; (void)q;
   coap_get_data_large(req, &len, &d, &off, &total);
   peer_hs++;
   coap_opt_iterator_t oi;
   coap_opt_t *o = coap_check_option(req, COAP_OPTION_RTAG, &oi);
   unsigned long t = o ? coap_decode_var_bytes(coap_opt_value(o), coap_opt_length(o)) : 0;
+  coap_str_const_t *up = coap_resource_get_uri_path(r);
+  if (up && up->length == 1 && up->s[0] == 'u') t += 50;      /* bodies of resource u */
   if (coap_get_block_b(NULL, req, COAP_OPTION_BLOCK1, &b))
     snprintf(peer_res, sizeof(peer_res), "P:%zu:%08x", len, fnv(d, d ? len : 0));
   else
@@ -434,6 +436,9 @@ static void peer(void) {
   coap_resource_t *r = coap_resource_init(coap_make_str_const("t"), 0);
   coap_register_request_handler(r, COAP_REQUEST_PUT, hnd_put_peer);
   coap_add_resource(srv, r);
+  coap_resource_t *ru = coap_resource_init(coap_make_str_const("u"), 0);
+  coap_register_request_handler(ru, COAP_REQUEST_PUT, hnd_put_peer);
+  coap_add_resource(srv, ru);
   coap_register_response_handler(cli, hnd_resp_peer);
   coap_address_t peer_addr;
   vn_addr4(&peer_addr, 0x0a000001u, 40000);
@@ -463,6 +468,13 @@ static void peer(void) {
       printf("BADITEM ");
       continue;
     }
+    int res_u = 0;
+    size_t tl = strlen(tag_s);
+    if (tl > 0 && tag_s[tl - 1] == 'u') {          /* "<n>u": the request goes to resource u */
+      res_u = 1;
+      tag_s[tl - 1] = 0;
+      if (tl == 1) strcpy(tag_s, "-");
+    }
     if (off < 0) off = 0;
     if ((size_t)off > body_len) off = (long)body_len;
     if (len < 0) len = 0;
@@ -482,7 +494,7 @@ static void peer(void) {
         coap_add_option(p, COAP_OPTION_SIZE2,
                         coap_encode_var_safe(buf, sizeof(buf), (unsigned)atol(size_s)), buf);
     } else {
-      coap_add_option(p, COAP_OPTION_URI_PATH, 1, (const uint8_t *)"t");
+      coap_add_option(p, COAP_OPTION_URI_PATH, 1, (const uint8_t *)(res_u ? "u" : "t"));
       coap_add_option(p, COAP_OPTION_BLOCK1,
                       coap_encode_var_safe(buf, sizeof(buf), (num << 4) | (m << 3) | szx), buf);
       if (strcmp(size_s, "-"))
@@ -494,7 +506,7 @@ static void peer(void) {
       }
     }
     {
-      unsigned long t = strcmp(tag_s, "-") ? strtoul(tag_s, NULL, 10) : 0;
+      unsigned long t = (strcmp(tag_s, "-") ? strtoul(tag_s, NULL, 10) : 0) + (res_u ? 50 : 0);
       for (long q = 0; q < len; q++) body[q] = peer_byte(t, (size_t)(off + q));
       if (len > 0) coap_add_data(p, (size_t)len, body);
     }
